@@ -83,12 +83,16 @@ class ULPIRegisterWindow(Elaboratable):
         self.write_request = Signal()
         self.write_data    = Signal(8)
 
+        # The arguments of the transaction in progress (latched when the request is made).
+        self.current_address = Signal(6)
+        self.current_write   = Signal(8)
+
 
     def elaborate(self, platform):
         m = Module()
 
-        current_address = Signal(6)
-        current_write   = Signal(8)
+        current_address = self.current_address
+        current_write   = self.current_write
 
         # Keep our control signals low unless explicitly asserted.
         m.d.usb += [
@@ -142,7 +146,7 @@ class ULPIRegisterWindow(Elaboratable):
 
                     # Once it is, start sending our command.
                     m.d.usb += [
-                        self.ulpi_data_out .eq(self.COMMAND_REG_READ | self.address),
+                        self.ulpi_data_out .eq(self.COMMAND_REG_READ | current_address),
                         self.ulpi_out_req  .eq(1)
                     ]
 
@@ -201,7 +205,7 @@ class ULPIRegisterWindow(Elaboratable):
 
                     # Once it is, start sending our command.
                     m.d.usb += [
-                        self.ulpi_data_out .eq(self.COMMAND_REG_WRITE | self.address),
+                        self.ulpi_data_out .eq(self.COMMAND_REG_WRITE | current_address),
                         self.ulpi_out_req  .eq(1)
                     ]
 
@@ -219,7 +223,7 @@ class ULPIRegisterWindow(Elaboratable):
                 # Hold our address until the PHY has accepted the command;
                 # and then move to presenting the PHY with the value to be written.
                 with m.Elif(self.ulpi_next):
-                    m.d.usb += self.ulpi_data_out.eq(self.write_data)
+                    m.d.usb += self.ulpi_data_out.eq(current_write)
                     m.next = 'HOLD_WRITE'
 
 
@@ -443,23 +447,25 @@ class ULPIControlTranslator(Elaboratable):
         # Create internal signals that request register updates.
         write_requested = Signal(name=f"write_requested_{address:02x}")
         write_value     = Signal(8, name=f"write_value_{address:02x}")
-        write_done      = Signal(name=f"write_done_{address:02x}")
 
         self._register_signals[address] = {
             'write_requested': write_requested,
             'write_value':     write_value,
-            'write_done':      write_done
         }
 
-        # If we've just finished a write, update our current register value.
-        with m.If(write_done):
-            m.d.usb += current_register_value.eq(write_value),
+        # If the register window has just finished a write to our register, the PHY now holds the
+        # value the window has sent -- which is the value it latched when the write was requested,
+        # and not necessarily the value we're requesting by now.
+        window = self.register_window
+        with m.If(window.done & (window.current_address == address)):
+            m.d.usb += current_register_value.eq(window.current_write),
 
         # If we have a mismatch between the requested and actual register value,
         # request a write of the new value.
-        m.d.comb += write_requested.eq(current_register_value != value)
-        with m.If(current_register_value != value):
-            m.d.usb += write_value.eq(value)
+        m.d.comb += [
+            write_requested .eq(current_register_value != value),
+            write_value     .eq(value)
+        ]
 
 
     def populate_ulpi_registers(self, m):
@@ -506,9 +512,6 @@ class ULPIControlTranslator(Elaboratable):
                     self.bus_idle
 
                 m.d.comb += [
-
-                    # Control signals.
-                    signals['write_done']              .eq(self.register_window.done),
 
                     # Register window signals.
                     self.register_window.address       .eq(address),
